@@ -197,8 +197,8 @@ def ordering_arg(body, term, k):
         return ("const", e[1]["variant"])
     if e[0] == "param":
         return ("param", e[2])
-    if e[0] == "field" and e[1][0] == "param":
-        return ("upvar", canon(e))
+    if e[0] == "upvar":
+        return ("param", e[2])
     return ("expr", canon(e))
 
 
